@@ -17,6 +17,9 @@ from xsdata.models.dtd import (
 from xsdata.models.enums import DataType, Tag
 from xsdata.utils.constants import DEFAULT_ATTR_NAME
 
+SEQUENCE = "s"
+CHOICE = "c"
+
 
 class DtdMapper:
     """Maps a Dtd instance to a list of class instances."""
@@ -188,6 +191,11 @@ class DtdMapper:
     def build_content(cls, target: Class, content: DtdContent, **kwargs: Any):
         """Build class content.
 
+        The occurrences of the enclosing sequence and choice nodes are
+        recorded in the restrictions path of every attr, like the schema
+        mapper does for xs:sequence and xs:choice, and are combined with
+        the attr's own occurrences by the CalculateAttributePaths handler.
+
         Args:
             target: The target class instance
             content: The dtd content instance.
@@ -198,20 +206,32 @@ class DtdMapper:
             restrictions = cls.build_restrictions(content.occur, **kwargs)
             cls.build_element(target, content.name, restrictions)
         elif content_type == DtdContentType.SEQ:
-            cls.build_content_tree(target, content, **kwargs)
+            params = cls.build_path(SEQUENCE, content, **kwargs)
+            cls.build_content_tree(target, content, **params)
         elif content_type == DtdContentType.OR:
-            params = cls.build_occurs(content.occur)
-            params.update(
-                {
-                    "choice": id(content),
-                    "min_occurs": 0,
-                }
-            )
-            params.update(**kwargs)
+            params = cls.build_path(CHOICE, content, **kwargs)
             cls.build_content_tree(target, content, **params)
         else:  # content_type == DtdContentType.PCDATA:
             restrictions = cls.build_restrictions(content.occur, **kwargs)
             cls.build_value(target, restrictions)
+
+    @classmethod
+    def build_path(cls, name: str, content: DtdContent, **kwargs: Any) -> dict:
+        """Append a sequence or choice node to the restrictions path.
+
+        Args:
+            name: The path step name, sequence or choice
+            content: The dtd sequence or choice content instance
+            **kwargs: The restriction arguments of the enclosing nodes
+
+        Returns:
+            The restriction arguments for the children of the node.
+        """
+        occurs = cls.build_occurs(content.occur)
+        step = (name, id(content), occurs["min_occurs"], occurs["max_occurs"])
+        path = [*kwargs.get("path", []), step]
+
+        return {**kwargs, "path": path}
 
     @classmethod
     def build_content_tree(cls, target: Class, content: DtdContent, **kwargs: Any):
